@@ -324,28 +324,38 @@ Definition judge_path_op (r : rstate) (o : op) (out : outcome) (view envl : tree
   if out_match want out && tree_equiv (Node st') view && tree_equiv envl (r_env r)
   then (None, r') else (Some false, r').
 
-(** [merge=False] loads: the level is replaced but nothing is merged, so the
-    view must stay as it is; the new level becomes visible at the next call that
-    merges -- [merge()] or a reload.  What happens in between (reads, and writes,
-    which happen to merge as a side effect) is not specified by the API: a
-    history that does anything else before merging leaves the scope there. *)
+(** [merge=False] loads and re-pointings ([set_project_location],
+    [set_runtime_path]) change a level without merging: the view must stay as it
+    is, and the change becomes visible at the next call that always merges --
+    [merge()], a reload of a dict level or [load_shell_env()].  What happens in
+    between is not specified by the API (reads see the old view; writes happen
+    to merge as a side effect; a file load merges only when it finds a file): a
+    history that does anything else before such a call leaves the scope there. *)
+Definition defers (o : op) : bool := is_deferred o || is_set_op o.
+
+Definition settles (o : op) : bool :=
+  match o with
+  | Merge | LoadDefaults _ | LoadOverrides _ | LoadCollection _ | LoadShellEnv _ => true
+  | _ => false
+  end.
+
 Definition merges (o : op) : bool :=
   is_reload o || match o with Merge => true | _ => false end.
 
-Definition pending (loads : list op) : bool := is_deferred (last loads Merge).
+Definition pending (loads : list op) : bool := defers (last loads Merge).
 
 Definition judge_step (fs : fsys) (i : init_args) (r : rstate) (x : obs_step)
   : option bool * rstate :=
   let '(h, out, view, envl) := x in
   match h with
   | Plain o =>
-      if is_deferred o then
+      if defers o then
         let loads' := r_loads r ++ [o] in
         if negb (scope_ok fs i loads' envl) then (Some true, r)
         else if out_match ONone out && tree_equiv (Node (r_st r)) view && tree_equiv envl (r_env r)
         then (None, mkR (r_st r) (r_journal r) loads' (r_env r) (r_handles r) (r_dead r))
         else (Some false, r)
-      else if pending (r_loads r) && negb (merges o) then (Some true, r)
+      else if pending (r_loads r) && negb (settles o) then (Some true, r)
       else if is_path_op o then judge_path_op r o out view envl
       else if merges o then
         let loads' := r_loads r ++ [o] in
